@@ -94,7 +94,7 @@ func (g *gen) transform(skew bool) Val {
 	for i := 0; i < n; i++ {
 		sep := []string{",", " ", ", "}[c.Intn(3)]
 		var f XFn
-		k := c.Intn(7)
+		k := c.Intn(9) // skewX/skewY are ordinary functions since c23d8c8
 		if skew && i == 0 {
 			k = 7 + c.Intn(2)
 		}
@@ -117,6 +117,9 @@ func (g *gen) transform(skew bool) Val {
 			f = XFn{"skewX", []float64{float64(10 + c.Intn(50))}, sep}
 		case 8:
 			f = XFn{"skewY", []float64{float64(10 + c.Intn(50))}, sep}
+		}
+		if k >= 7 {
+			g.d.Features["skew"] = true
 		}
 		g.c.Count("xform:" + f.Name + fmt.Sprint(len(f.Args)))
 		v.Xf = append(v.Xf, f)
@@ -253,7 +256,8 @@ func (g *gen) shape() *Node {
 		hpx, _ := dimPx(hv, 0)
 		half := math.Min(wpx, hpx) / 2
 		// radii within half the smaller side: no clamping (clamping differs from SVG 1.1, class rx-ry)
-		rad := func() Val { return Val{K: 'D', Num: math.Max(0.125, float64(int(half*c.Range(0.1, 1)*8))/8)} }
+		// radii up to 1.6 x half the smaller side: each is limited to half its own side (SVG 1.1 9.2, 5c701f0)
+		rad := func() Val { return Val{K: 'D', Num: math.Max(0.125, float64(int(half*c.Range(0.1, 1.6)*8))/8)} }
 		rk := c.Intn(6)
 		if half < 0.25 {
 			rk = 5
@@ -270,8 +274,8 @@ func (g *gen) shape() *Node {
 			A("rx", r)
 			A("ry", r)
 			c.Count("rect:rx=ry")
-		case 3:
-			if g.d.Class == "rx-ry" {
+		case 3, 4:
+			if g.d.Class == "rx-ry" || rk == 4 {
 				if c.Bool() {
 					A("rx", Val{K: 'D', Num: half * 0.25})
 					A("ry", Val{K: 'D', Num: half * 0.75})
@@ -438,7 +442,7 @@ func genDocClass(c *hc.Ctx, class string) *Doc {
 	g := &gen{c: c, d: d, cssProps: map[string]bool{}}
 	if class == "dash" || class == "dash-sw" {
 		d.Features["dash"] = true
-		g.noWidth = class == "dash"
+		g.noWidth = false // (dash lengths are user units whatever the stroke width since e1e27a7)
 	}
 	isCSS := strings.HasPrefix(class, "css")
 	if isCSS {
@@ -496,10 +500,14 @@ func genDocClass(c *hc.Ctx, class string) *Doc {
 		d.Features["fit"] = true
 		c.Count("head:none")
 	}
-	if class == "viewbox-origin" {
+	if d.VB != nil && (class == "viewbox-origin" || c.Chance(0.3)) {
+		// any origin is ordinary since d46c9ee
 		d.VB[0], d.VB[1] = float64(5+c.Intn(30)), float64(5+c.Intn(30))
 		if c.Bool() {
 			d.VB[0] = -d.VB[0]
+		}
+		if c.Chance(0.3) {
+			d.VB[1] = -d.VB[1]
 		}
 		d.Features["viewbox-origin"] = true
 	}
@@ -511,6 +519,11 @@ func genDocClass(c *hc.Ctx, class string) *Doc {
 		d.Features["size-percent"] = true
 	}
 
+	if d.VB != nil && (d.W != nil && d.W.Unit != "%" && d.VB[0] >= d.VB[2] || d.H != nil && d.H.Unit != "%" && d.VB[1] >= d.VB[3]) {
+		// known finding C19-viewbox-min-ge-size: with a width/height attribute, a viewBox whose min-x (min-y)
+		// is not below its width (height) is taken for missing (guard of e0b1d5e written for the old reading)
+		d.Features["viewbox-min-ge-size"] = true
+	}
 	root := &Node{Tag: "svg"}
 	d.Root = root
 	if c.Chance(0.2) {
@@ -562,8 +575,6 @@ func genDocClass(c *hc.Ctx, class string) *Doc {
 			sk := c.Intn(6)
 			if class == "css-id" && len(rules) == 0 {
 				sk = 2
-			} else if sk == 2 && class != "css-id" {
-				sk = 1 // id and attribute selectors do not survive the importer's CSS lexing (class css-id)
 			}
 			switch sk {
 			case 0: // type selector
